@@ -37,6 +37,7 @@ type Obligation struct {
 	Strict  bool
 	sliced  bool
 	ByHyp   bool
+	Slow    bool
 	chainSet map[string]bool
 }
 
@@ -395,6 +396,11 @@ func (fc *FnCtx) assertNamed(st *State, goal, kind, label, desc string, pos toke
 		name = fc.oblName(kind)
 	}
 	o := &Obligation{Name: name, Kind: kind, Desc: desc, Func: fc.name, Goal: goal, PC: st.pc, ncmds: len(fc.cmds), npre: -1, fc: fc, Expect: "unsat", Label: label, Needs: fc.curNeeds, Strict: fc.curStrict}
+	for _, n := range fc.curNeeds {
+		if n == "@slow" {
+			o.Slow = true
+		}
+	}
 	if pos.IsValid() {
 		o.Pos = fc.eng.fset.Position(pos).String()
 	}
